@@ -152,4 +152,29 @@ theorem uper_accepts_variant_of_canonical (t : PTy) (hw : wfP t = true) (v : Val
     (bits rest : Bits) (h : encUV t v s = some (bits, s')) : decUPER t (bits ++ rest) = some (v, rest) :=
   uper_accepts_variant t hw v (ucanonP_of_canonV t v hc) s s' bits rest h
 
+/-- the former F171 witness: `T ::= SEQUENCE { a INTEGER (0..255), ..., b BOOLEAN OPTIONAL }` receives
+    `83 81 40 80 40 80` from a newer version of the type: extension bit, a = 7, a bitmap of 2 additions `01` (b absent,
+    one unknown addition present), the unknown addition as an open type of TWO octets `02 01 02` — a length that is
+    neither a multiple of 3 octets nor the single octet 00, which `uper_open_type_skip` could not skip before the
+    repair.  It is a valid encoding of { a 7 } and the decoder returns that value (C: `ok 6 (seq (a (int 7)))`). -/
+theorem ref_F171_witness :
+    let t : PTy := .seq [.integer ⟨some 0, some 255, false⟩] [⟨false, none, false⟩] true [.boolean] [⟨true, none, true⟩]
+    let v : Val := .seq [.int 7, .absent]
+    (encUV t v { kind := .newer, extra := [some [0x01, 0x02]] }).map (fun p => complete p.1)
+      = some [0x83, 0x81, 0x40, 0x80, 0x40, 0x80] ∧
+    ∃ pad, decUPER t (bytesToBits [0x83, 0x81, 0x40, 0x80, 0x40, 0x80]) = some (v, pad) := by
+  intro t v
+  have h1 : (encUV t v { kind := .newer, extra := [some [0x01, 0x02]] }).map (fun p => complete p.1)
+      = some [0x83, 0x81, 0x40, 0x80, 0x40, 0x80] := by decide +kernel
+  refine ⟨h1, ?_⟩
+  cases h : encUV t v { kind := .newer, extra := [some [0x01, 0x02]] } with
+  | none => rw [h] at h1; cases h1
+  | some p =>
+    obtain ⟨bits, s'⟩ := p
+    rw [h] at h1
+    simp only [Option.map_some, Option.some.injEq] at h1
+    obtain ⟨pad, _, hd⟩ := uper_accepts_variant_bytes t (by decide +kernel) v (by decide +kernel) _ s' bits h
+    rw [h1] at hd
+    exact ⟨pad, hd⟩
+
 end Asn1c.Props.C03Uper
